@@ -409,6 +409,11 @@ type MVAR struct {
 // extensions to the value record format with additional fields.
 // Implementations must use the valueRecordSize field to determine the start of each record."
 func (mv *MVAR) parseValueRecords(src []byte) error {
+	if mv.valueRecordCount != 0 && mv.valueRecordSize < 8 {
+		// a record is at least a tag and a delta-set index (8 bytes) : with a smaller size
+		// the last records would be read past the end of the data
+		return fmt.Errorf("invalid MVAR value record size: %d", mv.valueRecordSize)
+	}
 	expectedL := int(mv.valueRecordSize) * int(mv.valueRecordCount)
 	if L := len(src); L < expectedL {
 		return fmt.Errorf("EOF: expected length: %d, got %d", expectedL, L)
